@@ -1,32 +1,58 @@
 ------------------------------- MODULE Scrollable -------------------------------
 (* C20 state machine: stored scroll position (any integer, set raw by set_scrollpos),         *)
 (* pending key action, content height, view height; Render resolves the position as           *)
-(* documented.  TLC explores every history of keys / set_scrollpos / resize / content         *)
-(* change / render within bounds and checks the after-render invariants and the scrollbar     *)
-(* geometry contract on the reference geometry.                                                *)
+(* documented.  TLC explores every history of keys / set_scrollpos / wheel / resize /         *)
+(* content change / input delivery / render within bounds and checks the after-render         *)
+(* invariants, "a resize or content change only clamps", the bar state the wrapped widget's   *)
+(* width depends on, and the scrollbar geometry contract on the reference geometry.           *)
+(*                                                                                            *)
+(* Sticky = TRUE is a deliberately wrong variant (a key pressed while the content fits stays  *)
+(* pending): TLC must refute ClampOnly for it (the invariant is not vacuous).                 *)
 EXTENDS ScrollableOps
 
-CONSTANTS MaxTotal, MaxH, Depth
+CONSTANTS MaxTotal, MaxH, Depth, W, Sticky
 
-VARIABLES stored, pend, total, h, rendered, view, n, last
-vars == <<stored, pend, total, h, rendered, view, n, last>>
+VARIABLES stored, pend, total, h, rendered, view, n, last,
+          pr,        \* position shown by the last rendering (-1: none yet)
+          quiet,     \* no key / set_scrollpos / wheel since the last rendering
+          clampok,   \* the last rendering, if it followed resizes / content changes only, showed Clamp(pr)
+          barw,      \* columns of the ScrollBar around the Scrollable (0: no ScrollBar)
+          bar,       \* the bar was drawn by the last rendering
+          given      \* width handed to the wrapped widget by the last render / key / mouse delivery
+vars == <<stored, pend, total, h, rendered, view, n, last, pr, quiet, clampok, barw, bar, given>>
 
 Init == /\ stored = 0 /\ pend = "" /\ total \in 0..MaxTotal /\ h \in 1..MaxH
         /\ rendered = FALSE /\ view = <<>> /\ n = 0 /\ last = "init"
+        /\ pr = -1 /\ quiet = TRUE /\ clampok = TRUE /\ barw \in 0..1 /\ bar = FALSE /\ given = W
 
-Key(k) == /\ pend' = k /\ rendered' = FALSE /\ last' = k /\ UNCHANGED <<stored, total, h, view>>
-SetPos(v) == /\ stored' = v /\ rendered' = FALSE /\ last' = "setpos" /\ UNCHANGED <<pend, total, h, view>>
-Resize(h2) == /\ h' = h2 /\ rendered' = FALSE /\ last' = "resize" /\ UNCHANGED <<stored, pend, total, view>>
-Content(t2) == /\ total' = t2 /\ rendered' = FALSE /\ last' = "content" /\ UNCHANGED <<stored, pend, h, view>>
+\* input reaches the wrapped widget with the width of the rendering the user looks at
+Deliver == given' = ChildWidth(bar, W, barw)
+
+Key(k) == /\ pend' = k /\ rendered' = FALSE /\ last' = k /\ quiet' = FALSE /\ Deliver
+          /\ UNCHANGED <<stored, total, h, view, pr, clampok, barw, bar>>
+SetPos(v) == /\ stored' = v /\ rendered' = FALSE /\ last' = "setpos" /\ quiet' = FALSE
+             /\ UNCHANGED <<pend, total, h, view, pr, clampok, barw, bar, given>>
+\* a wheel event is an event on the rendered screen; the ScrollBar turns it into a position one row away
+Wheel(d) == /\ rendered /\ barw > 0 /\ stored' = WheelPos(stored, d) /\ rendered' = FALSE /\ last' = "wheel" /\ quiet' = FALSE
+            /\ Deliver /\ UNCHANGED <<pend, total, h, view, pr, clampok, barw, bar>>
+Resize(h2) == /\ h' = h2 /\ rendered' = FALSE /\ last' = "resize"
+              /\ UNCHANGED <<stored, pend, total, view, pr, quiet, clampok, barw, bar, given>>
+Content(t2) == /\ total' = t2 /\ rendered' = FALSE /\ last' = "content"
+               /\ UNCHANGED <<stored, pend, h, view, pr, quiet, clampok, barw, bar, given>>
 Render ==
-  /\ LET p0 == Resolve(stored, total, h)
-         p == IF pend = "" THEN p0 ELSE Nav(p0, pend, total, h)
-     IN stored' = p /\ view' = View(p, total, h)
-  /\ pend' = "" /\ rendered' = TRUE /\ last' = "render" /\ UNCHANGED <<total, h>>
+  /\ LET fits == total <= h
+         p == IF Sticky /\ fits THEN 0 ELSE Shown(stored, pend, total, h)
+     IN /\ stored' = p /\ view' = View(p, total, h) /\ pr' = p
+        /\ clampok' = ((quiet /\ pr >= 0) => p = Clamp(pr, total, h))
+        /\ pend' = IF Sticky /\ fits THEN pend ELSE ""
+        /\ bar' = (barw > 0 /\ total > h)
+        /\ given' = ChildWidth(barw > 0 /\ total > h, W, barw)
+  /\ rendered' = TRUE /\ last' = "render" /\ quiet' = TRUE /\ UNCHANGED <<total, h, barw>>
 
 Next == /\ n < Depth /\ n' = n + 1
         /\ \/ \E k \in ScrollKeys : Key(k)
            \/ \E v \in (0 - MaxTotal - 2)..(MaxTotal + 2) : SetPos(v)
+           \/ \E d \in {"up", "down"} : Wheel(d)
            \/ \E h2 \in 1..MaxH : Resize(h2)
            \/ \E t2 \in 0..MaxTotal : Content(t2)
            \/ Render
@@ -36,6 +62,17 @@ AfterRender == rendered =>
   /\ stored >= 0 /\ stored <= MaxPos(total, h)
   /\ view = View(stored, total, h)
   /\ (total >= h => \A i \in 1..h : view[i] # -1)            \* blanks only when the content is shorter
+  /\ (total <= h => stored = 0)
+  /\ (~Sticky => pend = "")                                    \* a rendering uses up the key
+\* a resize / content change (no key, set_scrollpos or wheel since the last rendering) may only clamp the position
+ClampOnly == clampok
+\* the bar is drawn exactly when the content has more rows than the view; the wrapped widget has the full width otherwise
+BarState == rendered => /\ bar = (barw > 0 /\ total > h)
+                        /\ given = (IF barw > 0 /\ total > h THEN W - barw ELSE W)
+\* between renderings input is delivered with the width of the rendering on screen, even when the content has changed since
+DeliveredWidth == given \in {W, W - barw} /\ (barw = 0 => given = W) /\ (~bar /\ pr >= 0 => given = W)
+\* the two readings of "adjusted during rendering" differ only for a stored position that is out of range
+OrdersAgreeInRange == (Raw(stored, total, h) = Resolve(stored, total, h)) => Shown(stored, pend, total, h) = ShownLate(stored, pend, total, h)
 GeometrySatisfiable == rendered /\ total > h =>
   LET th == RefThumb(total, h)  tp == RefTop(total, h, stored)
   IN /\ PartsOK(tp, th, h - th - tp, h)
